@@ -321,7 +321,7 @@ func c14Legs(c *Ctx, p c14Prog, t *Tree) (sig, expected, observed string, bad bo
 			if p.data != nil {
 				data = p.data()
 			}
-			firstR := ""
+			firstR, firstUnknown := "", ""
 			for r := 0; r < 4; r++ {
 				o := outcomeKey(render(tpl, p.page, data))
 				count("same-template_repetitions")
@@ -330,13 +330,19 @@ func c14Legs(c *Ctx, p c14Prog, t *Tree) (sig, expected, observed string, bad bo
 				} else if o != firstR {
 					return "repetition-differs-after-other-calls/" + p.name, "identical outcome on every repetition within one process", "first: " + clip(firstR, 200) + "  ||  later: " + clip(o, 200), true
 				}
+				// a name that was not loaded: the same answer every time as well
+				un := outcomeKey(render(tpl, "no-such-template", nil))
+				if r == 0 {
+					firstUnknown = un
+				} else if un != firstUnknown {
+					return "repetition-differs-after-other-calls/unknown-name", "identical outcome on every repetition within one process", "first: " + clip(firstUnknown, 200) + "  ||  later: " + clip(un, 200), true
+				}
 				// other calls between the repetitions
 				textwire.EvaluateString("noise {{ 1 }}", nil)
 				textwire.EvaluateString("{{ undefinedNoise }}", nil)
 				// renders that fail inside a loop after an earlier pass has produced output
 				textwire.EvaluateString("@each(i in [1, 2])<{{ i }}>@if(loop.last){{ undefinedNoise }}@end@end", nil)
 				textwire.EvaluateString("@for(i = 0; i < 3; i++)[{{ i }}]{{ 1 / (1 - i) }}@end", nil)
-				render(tpl, "no-such-template", nil)
 				respond(tpl, "no-such-template", nil)
 				// the other files of the tree, and data-less evaluations that bind names the cases use
 				for _, other := range sortedKeys(t.Files) {
